@@ -24,7 +24,8 @@ def tryEnq (s : BSt) (ci : Nat) (st : Stmt) : BSt × Bool :=
   let th := s.th ci
   let r := qPrepareWrite s.cfg th.q st.size
   if r.2 then
-    (s.setTh ci (fun t => { t with q := qFinishCommit s.cfg r.1 st.size, qStmts := t.qStmts ++ [st] }), true)
+    (s.setTh ci (fun t => { t with q := qFinishCommit s.cfg r.1 st.size, qStmts := t.qStmts ++ [st],
+                                   accepted := t.accepted ++ [st] }), true)
   else (s.setTh ci (fun t => { t with q := r.1 }), false)
 
 def isLogKind : Kind → Bool | .log => true | _ => false
@@ -53,7 +54,12 @@ def enqFlow (s : BSt) (a : Nat) (st : Stmt) (cont : Nat) (first : Bool) (initial
   let (s2, ok) := tryEnq s1 ci st
   if ok then afterEnq (s2.setActor a (fun x => { x with pend := .none })) a st cont
   else
-    let bump (x : BSt) : BSt := if isLogKind st.kind then x.setTh ci (fun t => { t with fail := t.fail + 1 }) else x
+    let bump (x : BSt) : BSt :=
+      if isLogKind st.kind then
+        x.setTh ci (fun t => { t with fail := t.fail + 1,
+                                      discarded := t.discarded + (if s.cfg.dropping then 1 else 0),
+                                      blockedCalls := t.blockedCalls + (if s.cfg.dropping then 0 else 1) })
+      else x
     if s.cfg.dropping then
       let s3 := bump s2
       if cont = 0 ∨ cont = 5 then
@@ -275,8 +281,9 @@ def checkFailures (inj : BSt → Nat → BSt) (s : BSt) : BSt :=
     let th := s.th i
     if th.fail > 0 then
       -- get-and-reset first, then the report; site 8: the frontend keeps running while the notifier is called
-      inj ((s.setTh i (fun t => { t with fail := 0 })).emit
-        (.notify (if s.cfg.dropping then s!"n:dropped:{th.fail}:a{th.actor}" else s!"n:blocked:{th.fail}:a{th.actor}"))) 8
+      inj ({ (s.setTh i (fun t => { t with fail := 0 })).emit
+        (.notify (if s.cfg.dropping then s!"n:dropped:{th.fail}:a{th.actor}" else s!"n:blocked:{th.fail}:a{th.actor}"))
+             with reported := s.reported + th.fail }) 8
     else s) s
 
 /-- `_process_lowest_timestamp_transit_event` -/
@@ -289,7 +296,7 @@ def processLowest (inj : BSt → Nat → BSt) (s : BSt) : BSt × Bool :=
     | st :: rest =>
       let (s1, exc, flag) := processEvent s st
       let s2 := match exc with | some m => s1.emit (.notify m) | none => s1
-      let s3 := s2.setTh i (fun t => { t with buf := rest })
+      let s3 := s2.setTh i (fun t => { t with buf := rest, popped := t.popped ++ [st] })
       match flag with
       | some f =>
         let s3' := if s3.cfg.reportBeforeFlushCleanup then checkFailures inj s3 else s3
